@@ -117,6 +117,13 @@ def check(an: Analysis) -> None:
         mk = next((k.value for k in c.keywords if k.arg == "merge"), None)
         if not (c.args and is_name(c.args[0], cr.param_names()[0]) and is_name(mk, "merge")):
             ob.fail(cr, c, "ctx.record does not forward metric / merge")
+        # every metric handed to ctx.record is recorded: no path returns in front of the delegation (a metric is a State - its truth
+        # value, length or equality says nothing about whether it is a record)
+        gcr = an.cfg(cr)
+        dn_ = [n for n in gcr.nodes if n.kind == "call" and n.ast is c]
+        w = gcr.must_pass(lambda n: n in dn_, exits=("exit-return",), skip_edge=normal_only)
+        if w is not None:
+            ob.fail(cr, w[-2].ast if len(w) > 1 and w[-2].ast is not None else c, "a path through ctx.record returns without recording the metric (a metric whose truth value is False - a State defining __len__ / __bool__ - is a record like any other)", CFG.show_path(w))
 
     # ------------------------------------------------------------------ C10.3 left fold in recording order
     gs = an.cfg(srec)
@@ -331,6 +338,28 @@ def check(an: Analysis) -> None:
             or isinstance(v, ast.DictComp)
         )
         if not fresh:
+            # an alias of the own store is harmless on a path that never writes through it (`else: metrics = self._metrics`
+            # for the unmerged view): judged by what is reachable from the assignment
+            bname = (b.targets[0] if isinstance(b, ast.Assign) else b.target).id  # type: ignore[union-attr]
+            gmv = an.cfg(mf)
+            at_b = [n_ for n_ in gmv.nodes if n_.kind == "stmt" and n_.ast is b]
+
+            def writes_through(n_, bname=bname) -> bool:
+                a_ = n_.ast
+                if n_.kind == "stmt" and isinstance(a_, (ast.Assign, ast.AugAssign, ast.Delete)):
+                    tg_ = a_.targets if isinstance(a_, (ast.Assign, ast.Delete)) else [a_.target]
+                    return any(isinstance(t_, ast.Subscript) and is_name(t_.value, bname) for t_ in tg_) or (isinstance(a_, ast.AugAssign) and is_name(a_.target, bname))
+                if n_.kind == "call" and isinstance(a_.func, ast.Attribute) and is_name(a_.func.value, bname):  # type: ignore[union-attr]
+                    return a_.func.attr in ("update", "setdefault", "pop", "popitem", "clear", "__setitem__", "__delitem__")  # type: ignore[union-attr]
+                return False
+
+            def rebinds(n_, bname=bname) -> bool:
+                a_ = n_.ast
+                return n_.kind == "stmt" and a_ is not b and isinstance(a_, (ast.Assign, ast.AnnAssign)) and getattr(a_, "value", None) is not None and is_name(a_.targets[0] if isinstance(a_, ast.Assign) else a_.target, bname)
+
+            if at_b and gmv.search(at_b, writes_through, skip_node=rebinds) is None:
+                ob.inst(mf, b, "alias of the own store, never written through")
+                continue
             ob.fail(mf, b, "the merged view is computed in the scope's own store: nested values are folded into self._metrics (read()/metrics() then report nested records, repeated views fold them again)")
     smq = prog.cls(SM).qualname
     for fi in prog.scan_functions():
@@ -387,3 +416,9 @@ def _borrowed_c02(an: Analysis) -> None:
     from . import c03
 
     borrow(an, c03.check, {"C03.3": "C10.8"})
+    from . import c05
+
+    # C05.10 / C05.14: metrics are kept per type(metric) - two specialisations of a generic metric State must be two classes
+    # (a specialisation cache keyed by a rendering of the arguments hands the same class out for Counter[Literal["a"]] and
+    # Counter[Literal["b"]]: their records fold into one value)
+    borrow(an, c05.check, {"C05.10": "C10.9", "C05.14": "C10.10"}, keep=lambda f: "__class_getitem__" in f.at or "_types_cache" in f.construct)
